@@ -36,6 +36,8 @@ CLAIMED['C10'] = ('Lean proof over the dtype / buffer-shape model + corresponden
          'Theorems: the result dtype rule gives float32 for float32 operands and float64 for float64 operands (independent of rank, so 0-d results included; integer label operands do not matter); a Python scalar operand takes the dtype of the tensor it meets; the store stays aligned; after backward every gradient buffer has exactly the shape of its tensor whatever the kernels returned (buffers are zeros_like / the shape-checked caller gradient and only updated in place). PARTIAL: the float32-vs-float64 value agreement is observed (rel 2e-4), not proved. Every op / nn op / loss reduction / scalar-operator form is run at both dtypes with both upstream dtypes and result / gradient dtypes and shapes are compared.', '6 C10')
 CLAIMED['C11'] = ('Lean proof that model transitions only append / only touch gradient buffers + byte-level snapshots on the implementation',
          'Theorems: applying an op keeps every existing tensor (data, dtype, graph state) and is repeatable with identical values; backward changes no data, dtype or mode; the root stores the caller gradient as a value; zeroing touches no data (with backward_frame of C04 for unrelated gradients). PARTIAL by nature: aliasing between NumPy arrays cannot be expressed in a value-level model; the check snapshots tobytes() of every operand, target, base array, unrelated tensor/gradient and caller gradient around every forward and backward (aliased view operands, reused operands, repeated backward through one root) and repeats every op bit for bit.', '6 C11')
+CLAIMED['C16'] = ('Lean proof: the three im2col / col2im models equal one specification, col2im is the transpose of im2col + correspondence on a geometry grid',
+         'Theorems for every geometry with a window, any pad value, any data: the index-array, double-loop and strided-view im2col all equal cols[n,(c*kH+a)*kW+b,i*lW+j] = xpad[n,c,i*sH+a*dH,j*sW+b*dW]; the three col2im equal the scatter-add of that map; <im2col x, y> = <x, col2im y>; extract_windows / place_windows are adjoint; fold(unfold x) multiplies each pixel by the number of covering windows. Each real implementation (3 + 3 + extract / place, both layouts, int and tuple kernel sizes) is compared with its own model on integer-valued data over a geometry grid; implementation-side relations (bitwise agreement of the variants, adjoint identity in exact integers, coverage) are checked too.', '6 C16')
 PENDING = {}
 ALL = [f'C{i:02d}' for i in range(1, 21)]
 
